@@ -42,7 +42,21 @@ def run(ctx):
                               'nothing is started after an interrupt was seen')
     ctx.check('C07.O1', n >= 2, build.name, 'interrupt:tests-absent', build.loc, 'Build tests interrupted() and ExitInterrupted (%d edges)' % n)
     es = prog.fn('BuildResult::exit_status')
-    ok = any(is_enum('ExitInterrupted')(e.get('e')) and fact_holds(es.facts_at(e), lambda a: 'holds_alternative<BuildResult::Interrupted>' in dstr(a), True)
+    # "the result holds the Interrupted alternative": holds_alternative<Interrupted>(state_), or state_.index() compared
+    # with the position of Interrupted in the declared type of state_
+    alts = []
+    for fd in (prog.classes.get('BuildResult') or {}).get('fields', []):
+        if fd.get('n') == 'BuildResult::state_' and 'variant<' in (fd.get('ty') or ''):
+            alts = [a.strip().split('::')[-1] for a in fd['ty'][fd['ty'].index('variant<') + 8:fd['ty'].rindex('>')].split(',')]
+    int_index = alts.index('Interrupted') if 'Interrupted' in alts else None
+
+    def holds_interrupted(a):
+        if 'holds_alternative<BuildResult::Interrupted>' in dstr(a):
+            return True
+        a = strip(a)
+        return isinstance(a, dict) and a.get('k') == 'bin' and a.get('op') == '==' and int_index is not None and \
+            mentions_field(a['l'], 'BuildResult::state_') and dstr(a['l']).endswith('.index()') and const_value(a['r']) == int_index
+    ok = any(is_enum('ExitInterrupted')(e.get('e')) and fact_holds(es.facts_at(e), holds_interrupted, True)
              for e in es.events('ret'))
     ctx.check('C07.O1', ok, es.name, 'exit_status:interrupted', es.loc, 'an Interrupted result has status ExitInterrupted')
     wc = prog.fn('RealCommandRunner::WaitForCommandOrJobserverToken')
